@@ -1,2 +1,2 @@
-import AbacusVerif.Model.C02
-def main : IO Unit := AbacusVerif.driverMain AbacusVerif.Fields.handle
+import AbacusVerif.Model.C02Valid
+def main : IO Unit := AbacusVerif.driverMain AbacusVerif.Fields.handleValid
